@@ -52,7 +52,7 @@ M = [
  ('`DeepCast` (both value libraries) wrapped *an', 'C12', '`DeepCast` (both value libraries) wrapped *any* non-option value into `?T` without looking at it (`"s"` admitted as `?int`, `null` became `Some(null)`); the inner value is now cast to `T` first, `null` becomes `none`'),
  ('`fieldURI.push` ignored its `kind` argument, ', 'C12', '`fieldURI.push` ignored its `kind` argument, so every list index in a cast error path was printed as an empty field (``at `.` `` instead of ``at `[0]` ``)'),
  ('interpreter `DeepCast` refused every value fo', 'C12', 'interpreter `DeepCast` refused every value for type `any` (no early return as in the VM) and fell through to the error for any-object -> `{ ? }` (missing `return &val, nil`)'),
- ('interpreter `DeepCast` refused object -> `{ ?', 'C12', 'interpreter `DeepCast` refused object -> `{ ? }` when `allowCasts` is false (the VM accepts it): `let x: { ? } = s.parse_json();` failed on the interpreter only'),
+ ('interpreter `DeepCast` refused object -> `{ ?', 'C04', 'interpreter `DeepCast` refused object -> `{ ? }` when `allowCasts` is false (the VM accepts it): `let x: { ? } = s.parse_json();` failed on the interpreter only'),
  ('a failed `as` / annotated `let` was a fatal `', 'C12', 'a failed `as` / annotated `let` was a fatal `CastError` on the interpreter (not catchable by `try`); it is now a normal throw with the VM\'s message prefix'),
  ('interpreter `let x: any = <expr of an any-con', 'C12', 'interpreter `let x: any = <expr of an any-containing, non-any type>` returned without defining `x` (later use: host panic "Variable \'x\' not found")'),
  ('`VM.SpawnSync/SpawnAsync` validated each argu', 'C12', '`VM.SpawnSync/SpawnAsync` validated each argument with `DeepCast` but passed the *raw* argument on (an object for a `{ ? }` parameter, a plain `1` for a `?int` parameter crashed the callee); the converted value is passed now'),
